@@ -107,6 +107,89 @@ pub proof fn lemma_vlen_scan(s: Seq<u8>, k: int)
     }
 }
 
+// ------------------------------------------------------------------ read_varint64_offset (unrolled decoder)
+
+/// sum of the 7-bit groups of k bytes starting at s[i], little end first
+pub open spec fn vsum_at(s: Seq<u8>, i: int, k: int) -> nat
+    decreases k
+{
+    if k <= 0 { 0 } else { (s[i] & 0x7f) as nat + 128 * vsum_at(s, i + 1, k - 1) }
+}
+
+/// k bytes at offset `off`: the first k-1 carry the continuation bit, the k-th does not  ==>  the varint at `off` is exactly those k bytes
+pub proof fn lemma_vprefix_at(b: Seq<u8>, off: int, k: int)
+    requires 0 <= off, 1 <= k, off + k <= b.len(),
+        forall|j: int| 0 <= j < k - 1 ==> #[trigger] b[off + j] & 0x80 != 0,
+        b[off + k - 1] & 0x80 == 0,
+    ensures vlen(b.skip(off)) == Some(k), vval(b.skip(off)) == vsum_at(b, off, k)
+    decreases k
+{
+    let s = b.skip(off);
+    assert(s[0] == b[off]);
+    if k == 1 {
+        let x = b[off];
+        assert(x & 0x80 == 0 ==> x & 0x7f == x) by(bit_vector);
+        reveal_with_fuel(vsum_at, 2);
+    } else {
+        assert(b[off + 0] & 0x80 != 0);
+        assert forall|j: int| 0 <= j < k - 2 implies #[trigger] b[off + 1 + j] & 0x80 != 0 by { assert(b[off + (j + 1)] & 0x80 != 0); }
+        lemma_vprefix_at(b, off + 1, k - 1);
+        assert(s.skip(1) =~= b.skip(off + 1));
+    }
+}
+
+/// one `acc |= ((b & 0x7f) as u32) << 7` step of the decoder adds the group at its place value
+pub proof fn lemma_or_group7(acc: u32, b: u8)
+    by(bit_vector)
+    requires acc < 128u32
+    ensures (acc | (((b & 0x7f) as u32) << 7)) == acc + ((b & 0x7f) as u32) * 128u32,
+        (acc | (((b & 0x7f) as u32) << 7)) < 16384u32,
+{}
+
+/// one `acc |= ((b & 0x7f) as u32) << 14` step of the decoder adds the group at its place value
+pub proof fn lemma_or_group14(acc: u32, b: u8)
+    by(bit_vector)
+    requires acc < 16384u32
+    ensures (acc | (((b & 0x7f) as u32) << 14)) == acc + ((b & 0x7f) as u32) * 16384u32,
+        (acc | (((b & 0x7f) as u32) << 14)) < 0x20_0000u32,
+{}
+
+/// one `acc |= ((b & 0x7f) as u32) << 21` step of the decoder adds the group at its place value
+pub proof fn lemma_or_group21(acc: u32, b: u8)
+    by(bit_vector)
+    requires acc < 0x20_0000u32
+    ensures (acc | (((b & 0x7f) as u32) << 21)) == acc + ((b & 0x7f) as u32) * 0x20_0000u32,
+        (acc | (((b & 0x7f) as u32) << 21)) < 0x1000_0000u32,
+{}
+
+pub proof fn lemma_low_group(b: u8)
+    by(bit_vector)
+    ensures ((b & 0x7f) as u32) < 128u32
+{}
+
+/// `lo as u64 | (hi as u64) << 28` for a 28-bit lo
+pub proof fn lemma_or_28(lo: u32, hi: u32)
+    by(bit_vector)
+    requires lo < 0x1000_0000u32, hi < 0x1000_0000u32
+    ensures (lo as u64 | ((hi as u64) << 28)) == (lo as u64) + (hi as u64) * 0x1000_0000u64,
+        (lo as u64 | ((hi as u64) << 28)) < 0x100_0000_0000_0000u64
+{}
+
+/// `x | (r2 as u64) << 56` for a 56-bit x and an r2 that fits in 8 bits (no truncation)
+pub proof fn lemma_or_56(x: u64, r2: u32)
+    by(bit_vector)
+    requires x < 0x100_0000_0000_0000u64, r2 < 256u32
+    ensures (x | ((r2 as u64) << 56)) == x + (r2 as u64) * 0x100_0000_0000_0000u64
+{}
+
+/// the tenth byte: `r2 |= (b as u32) << 7` (the whole byte, not its low 7 bits)
+pub proof fn lemma_or_last(g: u32, b: u8)
+    by(bit_vector)
+    requires g < 128u32, b & 0x80 == 0
+    ensures (g | ((b as u32) << 7)) == g + ((b & 0x7f) as u32) * 128u32,
+        (b & 0x7f) as u32 <= 1u32 ==> (g | ((b as u32) << 7)) < 256u32
+{}
+
 pub proof fn lemma_vlen_none(s: Seq<u8>)
     requires forall|j: int| 0 <= j < s.len() ==> s[j] & 0x80 != 0
     ensures vlen(s) is None
